@@ -147,6 +147,16 @@ func checkCase(c Case) error {
 	if !bytes.Equal(wb.Bytes(), a.BE()) {
 		return fmt.Errorf("WriteGUID(%s) = %x, want %x", a.Text(), wb.Bytes(), a.BE())
 	}
+	// a second GUID goes behind the first, and a GUID behind whatever the buffer holds
+	util.WriteGUID(&wb, &lb)
+	if !bytes.Equal(wb.Bytes(), append(append([]byte{}, a.BE()...), b.BE()...)) {
+		return fmt.Errorf("WriteGUID(%s) then WriteGUID(%s) into one buffer = %x", a.Text(), b.Text(), wb.Bytes())
+	}
+	pre := bytes.NewBufferString("hdr:")
+	util.WriteGUID(pre, &la)
+	if !bytes.Equal(pre.Bytes(), append([]byte("hdr:"), a.BE()...)) {
+		return fmt.Errorf("WriteGUID(%s) into a buffer holding 4 bytes = %x", a.Text(), pre.Bytes())
+	}
 	// results must stay valid while further conversions are made (no shared buffers behind returned slices)
 	keepBytes, keepText, keepGUID := util.GUIDToBytes(&la), la.Format(), util.BytesToGUID(a.BE())
 	keepWire := (&signature.SignatureData{Owner: la}).Bytes()
